@@ -560,8 +560,10 @@ func raceSig(note string) string {
 	return strings.Join(fns, " <-> ")
 }
 
+// sameClass: shrinking must stay inside the violation's own class — the full signature, not just the oracle, so
+// that a case cannot drift into a different (possibly known) finding of the same oracle while being minimised.
 func sameClass(a, b *violation) bool {
-	return a != nil && b != nil && a.Oracle == b.Oracle
+	return a != nil && b != nil && a.Oracle == b.Oracle && a.Sig == b.Sig
 }
 
 // conclude triages violations, writes evidence, prints the verdict lines and returns the exit code.
